@@ -146,7 +146,7 @@ func c25GenResolve(t *rapid.T) c25ResolveCase {
 	n := rapid.IntRange(0, 6).Draw(t, "plan_n")
 	perm := rapid.Permutation(c25SelTargets).Draw(t, "targets")
 	if n >= 2 && rapid.Bool().Draw(t, "conflict") {
-		pairs := [][2]string{{"A", "iTagged"}, {"A", "iAudited"}, {"C", "iAudited"}, {"Reply", "iProto"}, {"Ping", "iProto"}, {"iTagged", "iAudited"}, {"B", "iTagged"}}
+		pairs := [][2]string{{"A", "iTagged"}, {"A", "iAudited"}, {"C", "iAudited"}, {"Reply", "iProto"}, {"Ping", "iProto"}, {"iTagged", "iAudited"}, {"iTagged", "iAudited"}, {"iAudited", "iTagged"}, {"B", "iTagged"}}
 		p := rapid.SampledFrom(pairs).Draw(t, "pair")
 		if rapid.Bool().Draw(t, "pair_swap") {
 			p[0], p[1] = p[1], p[0]
